@@ -1,5 +1,6 @@
 import Hdc.Lemmas.SmoothGcvAffine
 import Hdc.Props.C02
+import Hdc.Props.C03
 import Mathlib.Tactic.NormNum
 import Mathlib.Tactic.IntervalCases
 /-
@@ -18,13 +19,23 @@ Formal statements proved in this file (α any linearly ordered field, `G : GFns 
   wcv_lopt_on_grid  robust or not: lopt ∈ llas.map G.pow10 ∨ lopt = 0           (same for wcvp)
   wcv_self_consistent    wcv G miss y llas false = .ok z lopt → lopt ≠ 0 → gu miss y lopt = some z
   wcvp_self_consistent   wcvp G miss y p llas false = .ok z lopt → lopt ≠ 0 → pgu miss y lopt p = some z
-  robustStep_range   entries of rw in [0,1] → entries of robustStep … rw … in [0,1]
-  robustStep_mad_zero    MAD = 0 (indeed: ¬ 0 < MAD) → robustStep … rw … = rw
+  robustStep_range   entries of rw in [0,1] → entries of robustStep … rw w … in [0,1]
+  robustStep_mad_small   MAD ≤ madtol·(1 + max − min of the valid cells) → robustStep … rw w … = rw
+  robustStep_mad_nonpos / robustStep_mad_zero   corollaries for 0 ≤ madtol (the spread is ≥ 0: spread_nonneg)
+  robustStep_two_pos     TwoPos (w·rw) → TwoPos (w·robustStep … rw w …)     (the guard of the repaired kernel)
   wcv_robust_is_weighted_curve   wcv G miss y llas true = .ok z lopt → ∃ rw, (∀ x ∈ rw, 0 ≤ x ∧ x ≤ 1) ∧
                     z = ws2d (cleanOf miss y) lopt (mul2 (weightsOf miss y) rw)
                     (+ the weights mul2 w rw are in [0, w_i], zero on missing cells)     (wcvp: expectile … lopt p)
-  wcv_affine_robust  valid cells on a + b·i, 0 < pow10 on the grid, wcv … true = .ok z lopt →
+  gcvSelect_weights_two_pos      TwoPos w → gcvSelect … = some (lopt, rwts) → TwoPos rwts          (robust or not)
+  gcvSelect_robust_inContract    … hence InContract y rwts lopt for robust = true and a positive grid
+  wcv_robust_inContract   wcv … true = .ok z lopt, 0 < pow10 on the grid → the final weights are InContract at lopt
+  wcv_robust_normal_eq    … and z has full length, solves the weighted normal equations, is their only solution and the
+                    unique minimiser of the weighted PLS, at a grid λ: robust mode never degenerates
+  wcvp_robust_inContract / wcvp_robust_normal_eq   the same for ws2dwcvp with the asymmetric final stage (0<p<1):
+                    the curve is ws2d yc lopt (asymW p (w·rw) yc zprev), weights again InContract
+  wcv_affine_robust  valid cells on a + b·i, 0 < pow10 on the grid, 0 ≤ madtol, wcv … true = .ok z lopt →
                     z = lineList a b n and the final weights are the validity weights (MAD = 0 throughout)
+                    (C06.wcv_affine_robust drops `0 ≤ madtol` for the curve alone)
   wcv_affine_robust_ok   additionally 4 < countValid, 0 < G.big, G.sqrtw 0 = 0, grid l0 :: ls →
                     wcv … true = .ok (lineList a b n) (G.pow10 l0)
 -/
@@ -258,19 +269,38 @@ theorem wcvp_self_consistent (G : GFns α) (miss : α → Bool) (y : List α) (p
 
 /-! ### 4. the robust re-weighting step -/
 
-theorem robustStep_range (G : GFns α) (y ytemp wt de rw : List α) (s n : α)
+theorem robustStep_range (G : GFns α) (y ytemp wt de rw w : List α) (s n : α)
     (h : ∀ x ∈ rw, 0 ≤ x ∧ x ≤ 1) :
-    ∀ x ∈ robustStep G y ytemp wt de rw s n, 0 ≤ x ∧ x ≤ 1 :=
-  Smooth.robustStep_range G y ytemp wt de rw s n h
+    ∀ x ∈ robustStep G y ytemp wt de rw w s n, 0 ≤ x ∧ x ≤ 1 :=
+  Smooth.robustStep_range G y ytemp wt de rw w s n h
 
-/-- MAD = 0 keeps the weights (the source tests `mad > 0`) -/
-theorem robustStep_mad_zero (G : GFns α) (y ytemp wt de rw : List α) (s n : α)
-    (h : madOf y ytemp wt = 0) : robustStep G y ytemp wt de rw s n = rw := by
-  rw [robustStep_eq, if_neg (by rw [h]; exact lt_irrefl _)]
+/-- a MAD at rounding-noise level relative to the spread of the valid data keeps the weights
+    (the source tests `mad > madtol * (1 + max − min)`) -/
+theorem robustStep_mad_small (G : GFns α) (y ytemp wt de rw w : List α) (s n : α)
+    (h : madOf y ytemp wt ≤ G.madtol * (1 + (maxL (yvOf y w) - minL (yvOf y w)))) :
+    robustStep G y ytemp wt de rw w s n = rw := by
+  rw [robustStep_eq, if_neg (not_lt.2 (by unfold madMinOf; exact h))]
 
-theorem robustStep_mad_nonpos (G : GFns α) (y ytemp wt de rw : List α) (s n : α)
-    (h : ¬ 0 < madOf y ytemp wt) : robustStep G y ytemp wt de rw s n = rw := by
-  rw [robustStep_eq, if_neg h]
+/-- the spread of the valid data is non-negative -/
+theorem spread_nonneg (l : List α) : 0 ≤ maxL l - minL l := by
+  have := minL_le_maxL l; linarith
+
+theorem robustStep_mad_nonpos (G : GFns α) (y ytemp wt de rw w : List α) (s n : α)
+    (hmt : 0 ≤ G.madtol) (h : ¬ 0 < madOf y ytemp wt) : robustStep G y ytemp wt de rw w s n = rw := by
+  apply robustStep_mad_small
+  have h1 := spread_nonneg (yvOf y w)
+  have h2 : 0 ≤ G.madtol * (1 + (maxL (yvOf y w) - minL (yvOf y w))) := mul_nonneg hmt (by linarith)
+  linarith [not_lt.1 h]
+
+theorem robustStep_mad_zero (G : GFns α) (y ytemp wt de rw w : List α) (s n : α)
+    (hmt : 0 ≤ G.madtol) (h : madOf y ytemp wt = 0) : robustStep G y ytemp wt de rw w s n = rw :=
+  robustStep_mad_nonpos G y ytemp wt de rw w s n hmt (by rw [h]; exact lt_irrefl _)
+
+/-- the guard of the repaired kernel: if two cells have positive weight before the step,
+    two cells have positive weight after it -/
+theorem robustStep_two_pos (G : GFns α) (y ytemp wt de rw w : List α) (s n : α)
+    (h : TwoPos (mul2 w rw)) : TwoPos (mul2 w (robustStep G y ytemp wt de rw w s n)) :=
+  Smooth.robustStep_two_pos G y ytemp wt de rw w s n h
 
 /-! ### 5. robust = true: the band is a weighted Whittaker curve at the reported λ -/
 
@@ -281,7 +311,7 @@ theorem gstep_rw_range (G : GFns α) (y w de llasPow : List α) (robust : Bool) 
   | true =>
     obtain ⟨_, _, yt, _, e⟩ := gstep_robust_some _ _ _ _ _ _ _ _ _ h
     rw [e]
-    exact robustStep_range G y yt _ de _ _ n hr
+    exact robustStep_range G y yt _ de _ w _ n hr
   | false =>
     unfold gstep at h
     simp only [Bool.false_eq_true, if_false, Option.some.injEq] at h
@@ -350,6 +380,142 @@ theorem mul2_weights_range (miss : α → Bool) (y rw : List α) (hr : ∀ x ∈
   intro hi hm
   rw [fn_weightsOf miss y i hi, hm]; simp
 
+/-! ### 5b. robust mode never degenerates
+
+The repaired re-weighting step keeps the previous weights whenever fewer than two cells would
+keep a positive weight.  Hence "at least two cells of `w · rw` are positive" is an invariant
+of the loop; it holds initially (`rw` = ones, at least 5 valid cells), so the weights in
+force at the final fit are inside the contract of C01 and the band is the unique minimiser
+of the correspondingly weighted penalised least-squares functional at a grid λ. -/
+
+theorem twoPos_weightsOf (miss : α → Bool) (y : List α) (hv : 2 ≤ countValid miss y) :
+    TwoPos (weightsOf miss y) := by
+  obtain ⟨i, k, hik, hk, h1, h2⟩ := exists_two_valid miss y hv
+  refine ⟨i, k, hik, by simpa using hk, ?_, ?_⟩
+  · rw [fn_weightsOf miss y i (by omega), h1]; simp
+  · rw [fn_weightsOf miss y k hk, h2]; simp
+
+/-- the invariant lifted through the loop: the final weights have two positive entries -/
+theorem gcvSelect_weights_two_pos (G : GFns α) (y w llas : List α) (robust : Bool) (lopt : α)
+    (rwts : List α) (hwl : w.length = y.length) (h2 : TwoPos w)
+    (h : gcvSelect G y w llas robust = some (lopt, rwts)) : TwoPos rwts := by
+  cases robust with
+  | false =>
+    rw [gcvSelect_nonrobust G y w llas hwl] at h
+    simp only [Option.some.injEq, Prod.mk.injEq] at h
+    rw [← h.2]; exact h2
+  | true =>
+    obtain ⟨st4, hg, _, hrw⟩ := gcvSelect_robust_some G y w llas lopt rwts h
+    rw [hrw]
+    apply grun_twoPos G (deigs G y.length) (llas.map G.pow10) (sumF w) 4 0 _ st4 _ hg
+    show TwoPos (mul2 w (y.map fun _ => (nat 1 : α)))
+    rw [mul2_ones' w y hwl]; exact h2
+
+/-- robust λ selection: the final weights are inside the contract of C01 at the reported λ -/
+theorem gcvSelect_robust_inContract (G : GFns α) (y w llas : List α) (lopt : α) (rwts : List α)
+    (hn : 4 ≤ y.length) (hwl : w.length = y.length) (hw : ∀ x ∈ w, 0 ≤ x) (h2 : TwoPos w)
+    (hpow : ∀ l ∈ llas, 0 < G.pow10 l)
+    (h : gcvSelect G y w llas true = some (lopt, rwts)) : InContract y rwts lopt := by
+  have htp := gcvSelect_weights_two_pos G y w llas true lopt rwts hwl h2 h
+  obtain ⟨st4, hg, _, hrw⟩ := gcvSelect_robust_some G y w llas lopt rwts h
+  have hI := grun_rinv G (deigs G y.length) (llas.map G.pow10) (sumF w) hwl 4 0 _ st4
+    (rinv_gstate0 G _ y) hg
+  have hlpos : 0 < lopt := by
+    have := gcvSelect_robust_lopt G y w llas lopt rwts h
+    rw [List.mem_map] at this
+    obtain ⟨x, hx, rfl⟩ := this
+    exact hpow x hx
+  rw [hrw] at htp ⊢
+  exact inContract_mul2 y w st4.2.1 lopt hn hwl hw hI.1 hI.2.1 hlpos htp
+
+/-- ws2dwcv, robust = true: whenever the kernel returns a curve, the weights of the final
+    fit are inside the contract (no hypothesis beyond a positive grid) -/
+theorem wcv_robust_inContract (G : GFns α) (miss : α → Bool) (y llas : List α) (z : List α) (lopt : α)
+    (hpow : ∀ l ∈ llas, 0 < G.pow10 l) (h : wcv G miss y llas true = .ok z lopt) :
+    ∃ rw, (∀ x ∈ rw, 0 ≤ x ∧ x ≤ 1) ∧
+      gcvSelect G (cleanOf miss y) (weightsOf miss y) llas true =
+        some (lopt, mul2 (weightsOf miss y) rw) ∧
+      z = ws2d (cleanOf miss y) lopt (mul2 (weightsOf miss y) rw) ∧
+      InContract (cleanOf miss y) (mul2 (weightsOf miss y) rw) lopt := by
+  obtain ⟨hc, rwts, hs, hz⟩ := wcv_ok G miss y llas true z lopt h
+  obtain ⟨rw, hr, rfl⟩ := gcvSelect_weights G _ _ llas true lopt rwts hs
+  have hn : 4 ≤ (cleanOf miss y).length := by
+    have := countValid_le_length miss y; simp; omega
+  exact ⟨rw, hr, hs, hz, gcvSelect_robust_inContract G _ _ llas lopt _ hn (by simp)
+    (weightsOf_nonneg miss y) (twoPos_weightsOf miss y (by omega)) hpow hs⟩
+
+/-- … hence the robust band's curve is a finite Whittaker curve at a grid λ: it has full
+    length, solves the weighted normal equations, is their only solution, and is the unique
+    minimiser of the weighted penalised least-squares functional -/
+theorem wcv_robust_normal_eq (G : GFns α) (miss : α → Bool) (y llas : List α) (z : List α) (lopt : α)
+    (hpow : ∀ l ∈ llas, 0 < G.pow10 l) (h : wcv G miss y llas true = .ok z lopt) :
+    ∃ rw, (∀ x ∈ rw, 0 ≤ x ∧ x ≤ 1) ∧ lopt ∈ llas.map G.pow10 ∧ z.length = y.length ∧
+      NormalEq y.length (fn (cleanOf miss y)) (fn (mul2 (weightsOf miss y) rw)) lopt (fn z) ∧
+      (∀ z' : ℕ → α,
+        NormalEq y.length (fn (cleanOf miss y)) (fn (mul2 (weightsOf miss y) rw)) lopt z' →
+          ∀ i < y.length, z' i = fn z i) ∧
+      (∀ z' : ℕ → α,
+        PLS y.length (fn (cleanOf miss y)) (fn (mul2 (weightsOf miss y) rw)) lopt (fn z) ≤
+          PLS y.length (fn (cleanOf miss y)) (fn (mul2 (weightsOf miss y) rw)) lopt z') ∧
+      (∀ z' : ℕ → α,
+        PLS y.length (fn (cleanOf miss y)) (fn (mul2 (weightsOf miss y) rw)) lopt z' ≤
+          PLS y.length (fn (cleanOf miss y)) (fn (mul2 (weightsOf miss y) rw)) lopt (fn z) →
+          ∀ i < y.length, z' i = fn z i) := by
+  obtain ⟨rw, hr, _, hz, hC⟩ := wcv_robust_inContract G miss y llas z lopt hpow h
+  have hl : (cleanOf miss y).length = y.length := by simp
+  refine ⟨rw, hr, wcv_lopt_on_grid_robust G miss y llas z lopt h, ?_, ?_, ?_, ?_, ?_⟩
+  · rw [hz, ws2d_length _ _ _ hC.wlen, hl]
+  · rw [hz, ← hl]; exact ws2d_normal_eq hC
+  · intro z' hz'; rw [hz, ← hl] at *; exact ws2d_unique hC z' hz'
+  · intro z'; rw [hz, ← hl]; exact ws2d_minimises hC z'
+  · intro z' hz'; rw [hz, ← hl] at *; exact ws2d_minimiser_unique hC z' hz'
+
+/-- ws2dwcvp, robust = true: the robust weights are inside the contract -/
+theorem wcvp_robust_inContract (G : GFns α) (miss : α → Bool) (y : List α) (p : α) (llas : List α)
+    (z : List α) (lopt : α) (hpow : ∀ l ∈ llas, 0 < G.pow10 l)
+    (h : wcvp G miss y p llas true = .ok z lopt) :
+    ∃ rw, (∀ x ∈ rw, 0 ≤ x ∧ x ≤ 1) ∧
+      z = expectile (cleanOf miss y) (mul2 (weightsOf miss y) rw) lopt p ∧
+      InContract (cleanOf miss y) (mul2 (weightsOf miss y) rw) lopt := by
+  obtain ⟨hc, rwts, hs, hz⟩ := wcvp_ok G miss y p llas true z lopt h
+  obtain ⟨rw, hr, rfl⟩ := gcvSelect_weights G _ _ llas true lopt rwts hs
+  have hn : 4 ≤ (cleanOf miss y).length := by
+    have := countValid_le_length miss y; simp; omega
+  exact ⟨rw, hr, hz, gcvSelect_robust_inContract G _ _ llas lopt _ hn (by simp)
+    (weightsOf_nonneg miss y) (twoPos_weightsOf miss y (by omega)) hpow hs⟩
+
+/-- … and the asymmetric final stage on top of them (`0 < p < 1`): the band's curve is the
+    Whittaker curve for the weights `asymW p (w · rw) yc zprev`, which are again inside the
+    contract; it solves those normal equations and is their only solution -/
+theorem wcvp_robust_normal_eq (G : GFns α) (miss : α → Bool) (y : List α) (p : α) (llas : List α)
+    (z : List α) (lopt : α) (hpow : ∀ l ∈ llas, 0 < G.pow10 l) (hp0 : 0 < p) (hp1 : p < 1)
+    (h : wcvp G miss y p llas true = .ok z lopt) :
+    ∃ rw zprev, (∀ x ∈ rw, 0 ≤ x ∧ x ≤ 1) ∧ lopt ∈ llas.map G.pow10 ∧ z.length = y.length ∧
+      zprev.length = y.length ∧
+      InContract (cleanOf miss y)
+        (asymW p (mul2 (weightsOf miss y) rw) (cleanOf miss y) zprev) lopt ∧
+      z = ws2d (cleanOf miss y) lopt (asymW p (mul2 (weightsOf miss y) rw) (cleanOf miss y) zprev) ∧
+      NormalEq y.length (fn (cleanOf miss y))
+        (fn (asymW p (mul2 (weightsOf miss y) rw) (cleanOf miss y) zprev)) lopt (fn z) ∧
+      (∀ z' : ℕ → α, NormalEq y.length (fn (cleanOf miss y))
+        (fn (asymW p (mul2 (weightsOf miss y) rw) (cleanOf miss y) zprev)) lopt z' →
+          ∀ i < y.length, z' i = fn z i) := by
+  obtain ⟨rw, hr, hz, hC⟩ := wcvp_robust_inContract G miss y p llas z lopt hpow h
+  have hl : (cleanOf miss y).length = y.length := by simp
+  have hz0 : (zerosLike (cleanOf miss y)).length = (cleanOf miss y).length := by simp
+  obtain ⟨j, _, _, h2, _⟩ := irls_spec (cleanOf miss y) (mul2 (weightsOf miss y) rw) lopt p hC.wlen 9
+    (zerosLike (cleanOf miss y)) (zerosLike (cleanOf miss y)) hz0
+  have hlen := iter_length (cleanOf miss y) (mul2 (weightsOf miss y) rw) lopt p _ hC.wlen hz0 j
+  have hC' := C03.asymW_inContract hC p hp0 hp1 _ hlen
+  have hze : z = ws2d (cleanOf miss y) lopt (asymW p (mul2 (weightsOf miss y) rw) (cleanOf miss y)
+      (iter (cleanOf miss y) (mul2 (weightsOf miss y) rw) lopt p (zerosLike (cleanOf miss y)) j)) := by
+    rw [hz]; unfold expectile; rw [h2]
+  refine ⟨rw, _, hr, wcvp_lopt_on_grid_robust G miss y p llas z lopt h, ?_, by rw [hlen, hl], hC',
+    hze, ?_, ?_⟩
+  · rw [hze, ws2d_length _ _ _ hC'.wlen, hl]
+  · rw [hze, ← hl]; exact ws2d_normal_eq hC'
+  · intro z' hz'; rw [hze, ← hl] at *; exact ws2d_unique hC' z' hz'
+
 /-! ### 6. constant / linear series under the robust loop
 
 With every valid cell on a straight line all residuals on valid cells are 0, hence the MAD is
@@ -377,7 +543,7 @@ theorem fit_of_line (miss : α → Bool) (y : List α) (a b : α) (hc : 4 < coun
   simpa using this
 
 theorem wcv_affine_robust (G : GFns α) (miss : α → Bool) (y llas : List α) (a b : α) (z : List α)
-    (lopt : α) (hpow : ∀ l ∈ llas, 0 < G.pow10 l)
+    (lopt : α) (hpow : ∀ l ∈ llas, 0 < G.pow10 l) (hmt : 0 ≤ G.madtol)
     (hline : ∀ i (hi : i < y.length), miss y[i] = false → y[i] = a + b * (i : α))
     (h : wcv G miss y llas true = .ok z lopt) :
     z = lineList a b y.length ∧
@@ -391,7 +557,7 @@ theorem wcv_affine_robust (G : GFns α) (miss : α → Bool) (y llas : List α) 
     exact hpow l hl
   have hfit : ∀ s ∈ llas.map G.pow10, ws2d (cleanOf miss y) s (weightsOf miss y) = lineList a b y.length :=
     fun s hs => fit_of_line miss y a b hc hline s (hpow' s hs)
-  have hP := grun_perfInv G (perfect_of_line miss y a b hline) (by simp)
+  have hP := grun_perfInv G hmt (perfect_of_line miss y a b hline) (by simp)
     (deigs G (cleanOf miss y).length) (llas.map G.pow10) hfit (sumF (weightsOf miss y)) 4 0 _ st4
     (rinv_gstate0 G _ (cleanOf miss y)) (perfInv_gstate0 G _ _) hg
   have hw : rwts = weightsOf miss y := by
@@ -401,7 +567,7 @@ theorem wcv_affine_robust (G : GFns α) (miss : α → Bool) (y llas : List α) 
 
 theorem wcv_affine_robust_ok (G : GFns α) (miss : α → Bool) (y : List α) (l0 : α) (ls : List α)
     (a b : α) (hc : 4 < countValid miss y) (hpow : ∀ l ∈ l0 :: ls, 0 < G.pow10 l)
-    (hsq : G.sqrtw 0 = 0) (hbig : 0 < G.big)
+    (hsq : G.sqrtw 0 = 0) (hbig : 0 < G.big) (hmt : 0 ≤ G.madtol)
     (hline : ∀ i (hi : i < y.length), miss y[i] = false → y[i] = a + b * (i : α)) :
     wcv G miss y (l0 :: ls) true = .ok (lineList a b y.length) (G.pow10 l0) := by
   have hfit : ∀ s ∈ G.pow10 l0 :: ls.map G.pow10,
@@ -412,7 +578,7 @@ theorem wcv_affine_robust_ok (G : GFns α) (miss : α → Bool) (y : List α) (l
     rw [List.mem_map] at this
     obtain ⟨l, hl, rfl⟩ := this
     exact hpow l hl
-  have hrun := grun_perfect G (perfect_of_line miss y a b hline) hsq (by simp)
+  have hrun := grun_perfect G hmt (perfect_of_line miss y a b hline) hsq (by simp)
     (deigs G (cleanOf miss y).length) (G.pow10 l0) (ls.map G.pow10) hfit
     (sumF (weightsOf miss y)) hbig
   rw [wcv_unfold, if_pos hc, gcvSelect_unfold]
@@ -429,7 +595,7 @@ theorem wcv_affine_robust_ok (G : GFns α) (miss : α → Bool) (y : List α) (l
 /-! ### non-vacuity -/
 
 /-- a concrete `GFns ℚ` (the theorems hold for arbitrary ones) -/
-def Gq : GFns ℚ := ⟨fun _ _ => -1, 1, fun x => x, fun x => x, fun x => x, 1000, 1, 1⟩
+def Gq : GFns ℚ := ⟨fun _ _ => -1, 1, fun x => x, fun x => x, fun x => x, 1000, 1, 1, 1 / 1000⟩
 
 /-- hypothesis of `robustStep_range`: weights in [0,1] -/
 example : ∀ x ∈ ([1, 0, 1 / 2] : List ℚ), 0 ≤ x ∧ x ≤ 1 := by
@@ -449,6 +615,7 @@ example : wcv Gq (fun x : ℚ => decide (x = -3000)) [1, 3, -3000, 7, 9, 11] [1,
   have := wcv_affine_robust_ok Gq (fun x : ℚ => decide (x = -3000)) [1, 3, -3000, 7, 9, 11] 1 [2] 1 2
     (by norm_num [countValid, List.filter])
     (by intro l hl; simp at hl; rcases hl with rfl | rfl <;> norm_num [Gq]) rfl (by norm_num [Gq])
+    (by norm_num [Gq])
     (by
       intro i hi
       simp only [List.length_cons, List.length_nil] at hi
